@@ -3739,3 +3739,164 @@ func runPathKeyComparisonMarks(rr *RuleRun) {
 		})
 	}
 }
+
+// ---------------------------------------------------------------------------
+
+func init() {
+	register(&Rule{
+		ID: "C02.no-machine-arithmetic-on-narrowed-numbers", Prop: "C02", Also: []string{"C03", "C14", "C13"}, Floor: 0, Controls: 0,
+		Doc: "no number value is built (NumberIntVal / NumberUIntVal / NumberFloatVal) from Go machine arithmetic (+ - * / and unary minus) on integers that were narrowed out of big.Float operands: every such operator can overflow or wrap for operands that are individually exact (MinInt64 / -1, MaxInt64 + 1, 2^32 * 2^32), and the wrapped machine result is then presented as the exact arbitrary-precision answer — the big.Float operation it replaces cannot overflow",
+		Run: runNoMachineArithmeticOnNarrowed,
+	})
+	register(&Rule{
+		ID: "C11.csv-readers-configured-alike", Prop: "C11", Also: []string{"C14", "C12"}, Floor: 1, Controls: 0,
+		Doc: "the Type callback and the Impl callback of csvdecode configure the lexing options of their csv.Reader identically (Comma, Comment, LazyQuotes, TrimLeadingSpace are set on both sides or on neither, to the same expressions): the type is predicted from the header as the Type callback's reader parses it and the rows are built from the header as the Impl callback's reader parses it, so a reader option set on one side only (TrimLeadingSpace, Comma, LazyQuotes) makes the attribute names disagree and the result fail its own conformance check",
+		Run: runCSVReadersAlike,
+	})
+}
+
+func runNoMachineArithmeticOnNarrowed(rr *RuleRun) {
+	c := rr.Ctx
+	n := 0
+	eachFuncBody(c, []string{"cty", "cty/function/stdlib", "cty/convert"}, func(pkg string, fd *ast.FuncDecl, body *ast.BlockStmt) {
+		if body == nil {
+			return
+		}
+		info := c.Info(pkg)
+		// integers narrowed out of a big.Float / big.Int in this body
+		narrowed := map[types.Object]bool{}
+		inspectNoLit(body, func(nd ast.Node) bool {
+			as, ok := nd.(*ast.AssignStmt)
+			if !ok || len(as.Rhs) != 1 {
+				return true
+			}
+			call, ok := ast.Unparen(as.Rhs[0]).(*ast.CallExpr)
+			if !ok || !isCall(info, call, "math/big.Float.Int64", "math/big.Float.Uint64", "math/big.Int.Int64", "math/big.Int.Uint64") {
+				return true
+			}
+			if o := objOf(info, as.Lhs[0]); o != nil {
+				narrowed[o] = true
+			}
+			return true
+		})
+		if len(narrowed) == 0 {
+			return
+		}
+		var usesNarrowed func(e ast.Expr) (arith bool, any bool)
+		usesNarrowed = func(e ast.Expr) (bool, bool) {
+			switch x := ast.Unparen(e).(type) {
+			case *ast.Ident:
+				return false, narrowed[objOf(info, x)]
+			case *ast.BinaryExpr:
+				switch x.Op {
+				case token.ADD, token.SUB, token.MUL, token.QUO:
+					_, a := usesNarrowed(x.X)
+					_, b := usesNarrowed(x.Y)
+					return a || b, a || b
+				}
+			case *ast.UnaryExpr:
+				if x.Op == token.SUB {
+					_, a := usesNarrowed(x.X)
+					return a, a
+				}
+			case *ast.CallExpr:
+				// a conversion int64(x)
+				if tv, ok := info.Types[x.Fun]; ok && tv.IsType() && len(x.Args) == 1 {
+					return usesNarrowed(x.Args[0])
+				}
+			}
+			return false, false
+		}
+		inspectNoLit(body, func(nd ast.Node) bool {
+			call, ok := nd.(*ast.CallExpr)
+			if !ok || !isCall(info, call, "cty.NumberIntVal", "cty.NumberUIntVal", "cty.NumberFloatVal") || len(call.Args) != 1 {
+				return true
+			}
+			arith, any := usesNarrowed(call.Args[0])
+			if !any {
+				return true
+			}
+			n++
+			key := fmt.Sprintf("%s.%s/%s#%d", pkg, declName(fd), trunc(exprStr(call), 40), n)
+			if arith {
+				rr.Violation(key, call.Pos(), fmt.Sprintf("%s builds a number from Go machine arithmetic on integers narrowed out of big.Float operands: the operands may each be exact and the operator still overflows or wraps (MinInt64 / -1, MaxInt64 + 1), and the wrapped result is returned as if it were the exact answer", trunc(exprStr(call), 50)))
+			} else {
+				rr.OK(key, call.Pos(), "the narrowed integer is passed on unchanged")
+			}
+			return true
+		})
+	})
+}
+
+func runCSVReadersAlike(rr *RuleRun) {
+	c := rr.Ctx
+	pkg := "cty/function/stdlib"
+	info := c.Info(pkg)
+	for _, sp := range findSpecs(c, pkg) {
+		tcb, ok1 := ast.Unparen(sp.TypeCB).(*ast.FuncLit)
+		icb, ok2 := ast.Unparen(sp.ImplCB).(*ast.FuncLit)
+		if !ok1 || !ok2 {
+			continue
+		}
+		config := func(body *ast.BlockStmt) (map[string]string, bool) {
+			readers := map[types.Object]bool{}
+			inspectNoLit(body, func(n ast.Node) bool {
+				as, ok := n.(*ast.AssignStmt)
+				if !ok || len(as.Rhs) != 1 || len(as.Lhs) != 1 {
+					return true
+				}
+				if call, ok := as.Rhs[0].(*ast.CallExpr); ok && isCall(info, call, "encoding/csv.NewReader") {
+					if o := objOf(info, as.Lhs[0]); o != nil {
+						readers[o] = true
+					}
+				}
+				return true
+			})
+			if len(readers) == 0 {
+				return nil, false
+			}
+			out := map[string]string{}
+			inspectNoLit(body, func(n ast.Node) bool {
+				as, ok := n.(*ast.AssignStmt)
+				if !ok {
+					return true
+				}
+				for i, l := range as.Lhs {
+					if se, ok := l.(*ast.SelectorExpr); ok && readers[objOf(info, se.X)] && i < len(as.Rhs) {
+						// only the options that decide how the text of a field is read (FieldsPerRecord, which the
+						// Impl callback sets from the predicted type, validates row lengths and leaves the names alone)
+						switch se.Sel.Name {
+						case "Comma", "Comment", "LazyQuotes", "TrimLeadingSpace":
+							out[se.Sel.Name] = exprStr(as.Rhs[i])
+						}
+					}
+				}
+				return true
+			})
+			return out, true
+		}
+		ct, ok1 := config(tcb.Body)
+		ci, ok2 := config(icb.Body)
+		if !ok1 || !ok2 {
+			continue
+		}
+		key := fmt.Sprintf("%s.%s/csv.Reader configuration", pkg, sp.Name)
+		var diffs []string
+		for f, v := range ct {
+			if ci[f] != v {
+				diffs = append(diffs, fmt.Sprintf("%s = %s in Type but %q in Impl", f, v, ci[f]))
+			}
+		}
+		for f, v := range ci {
+			if _, ok := ct[f]; !ok {
+				diffs = append(diffs, fmt.Sprintf("%s = %s in Impl only", f, v))
+			}
+		}
+		sortStrings(diffs)
+		if len(diffs) == 0 {
+			rr.OK(key, sp.Lit.Pos(), "both callbacks set the same reader options")
+		} else {
+			rr.Violation(key, icb.Pos(), fmt.Sprintf("the two callbacks of %s parse the same document with differently configured csv readers (%s): the attribute names predicted from the header and the ones the rows are built with then disagree for some documents, and the result fails its own conformance check", sp.Name, strings.Join(diffs, "; ")))
+		}
+	}
+}
